@@ -325,8 +325,13 @@ static ares_status_t ares_qcache_insert_int(ares_qcache_t           *qcache,
     return ARES_ENOTIMP;
   }
 
-  /* Look at SOA for NXDOMAIN for minimum */
-  if (rcode == ARES_RCODE_NXDOMAIN) {
+  /* Negative responses: NXDOMAIN, and NOERROR without any answer (NODATA).
+   * RFC 2308 Section 5 says their lifetime comes from the SOA in the authority
+   * section (minimum of its TTL and MINIMUM); without one they are not cached.
+   * Otherwise NODATA would be kept for the maximum TTL, since the SOA is
+   * otherwise skipped when looking for the smallest TTL. */
+  if (rcode == ARES_RCODE_NXDOMAIN ||
+      ares_dns_record_rr_cnt(qresp, ARES_SECTION_ANSWER) == 0) {
     ttl = ares_qcache_soa_minimum(qresp);
   } else {
     ttl = ares_qcache_calc_minttl(qresp);
